@@ -631,6 +631,15 @@ fn bed_file_case(dir: &Path, list: &[BedRec], cc: &mut CaseCtx) {
                 return;
             }
         };
+        // the path already holds a longer file, which must be replaced (self-contained: the case
+        // does not rely on what an earlier case left behind)
+        {
+            let mut stale = mem.clone();
+            stale.extend_from_slice(b"stale\t1\t2\nstale\t3\t4\n");
+            if let Err(e) = std::fs::write(&path, &stale) {
+                panic!("cannot write scratch file {:?}: {}", path, e);
+            }
+        }
         match bed::Writer::to_file(&path) {
             Err(e) => {
                 cc.violation("C13/bed/to_file/error", format!("{:?}: {}", path, e));
@@ -860,11 +869,12 @@ fn typed_fields(g: &gff::Record) -> Vec<String> {
 
 fn attribute_maps(d: Dialect) -> Vec<Vec<(String, String)>> {
     let keys: Vec<&str> = match d.gff3_like() {
-        true => vec!["ID", "Note", "k 2", "x"],
+        true => vec!["ID", "Note", "k 2", "x", "Note "],
         false => vec!["ID", "Note", "gene_id", "x"],
     };
     let vals: Vec<&str> = match d.gff3_like() {
-        true => vec!["v", "1", "a b", "y.z", "-", "p:q|r"],
+        // a blank is no GFF3 delimiter: values (and keys) may begin or end with one
+        true => vec!["v", "1", "a b", "y.z", "-", "p:q|r", " lead", "trail "],
         // ',' and '=' are ordinary characters in the GFF2/GTF2 attribute syntax
         false => vec!["v", "1", "a_b", "y.z", "-", "p,q", "x=y"],
     };
@@ -1422,6 +1432,13 @@ fn gff_file_case(dir: &Path, list: &[GffRec], d: Dialect, cc: &mut CaseCtx) {
                 }
             }
         }
+        {
+            let mut stale = mem.clone();
+            stale.extend_from_slice(b"stale\ts\tgene\t1\t2\t.\t+\t.\tID=stale\n");
+            if let Err(e) = std::fs::write(&path, &stale) {
+                panic!("cannot write scratch file {:?}: {}", path, e);
+            }
+        }
         match gff::Writer::to_file(&path, d.ty()) {
             Err(e) => {
                 cc.violation(format!("C13/{}/to_file/error", dn), format!("{:?}: {}", path, e));
@@ -1493,6 +1510,8 @@ enum Corruption {
     Delete(usize),
     Subst(usize, u8),
     Insert(usize, u8),
+    /// two substitutions at distinct offsets (thorough tier)
+    Subst2(usize, u8, usize, u8),
 }
 
 const SUBST: [u8; 8] = [b'\t', b'\n', b'x', b'9', b'#', b'.', b'-', b'3'];
@@ -1514,6 +1533,12 @@ fn corrupt(base: &[u8], c: &Corruption) -> Vec<u8> {
         Corruption::Insert(i, b) => {
             let mut v = base.to_vec();
             v.insert(*i, *b);
+            v
+        }
+        Corruption::Subst2(i, b, j, c) => {
+            let mut v = base.to_vec();
+            v[*i] = *b;
+            v[*j] = *c;
             v
         }
     }
@@ -1900,7 +1925,7 @@ fn bed_unit(tier: Tier, shard: usize, ctx: &mut Ctx) {
     }
 }
 
-fn corruption_unit(shard: usize, ctx: &mut Ctx) {
+fn corruption_unit(tier: Tier, shard: usize, ctx: &mut Ctx) {
     if shard == 0 {
         for (kind, line) in malformed_lines() {
             ctx.case(|| json!({"kind": "malformed", "format": kind, "line": line}), |cc| malformed_clause(kind, line, cc));
@@ -1921,6 +1946,23 @@ fn corruption_unit(shard: usize, ctx: &mut Ctx) {
         }
         for b in SUBST {
             cs.push(Corruption::Insert(base.len(), b));
+        }
+        if tier == Tier::Thorough {
+            // every pair of single-byte substitutions
+            for i in 0..base.len() {
+                for j in i + 1..base.len() {
+                    for b in SUBST {
+                        if base[i] == b {
+                            continue;
+                        }
+                        for c in SUBST {
+                            if base[j] != c {
+                                cs.push(Corruption::Subst2(i, b, j, c));
+                            }
+                        }
+                    }
+                }
+            }
         }
         for c in cs {
             idx += 1;
@@ -2053,7 +2095,7 @@ impl Prop for C13Prop {
         "fault_enumeration"
     }
     fn rule(&self) -> &'static str {
-        "BED: every record of a 5x3x8 grid per auxiliary column count k=0..4 as a single-record file, strided pairs and triples with a common k, four comment placements. GFF: three dialects x (score, strand, phase) grid x a family of attribute multimaps (empty, one pair, one key with 2-3 values, two keys interleaved); per record: writer conformance as a multiset of pairs, the reader on EVERY permutation of the written pairs (with and without trailing terminator), and end-to-end. every ordered pair and triple of five GFF records (with and without attributes) through one writer object. Corruptions: every truncation, every single-byte deletion, substitution and insertion from {TAB LF x 9 # . - 3} of six written files (3 GFF dialects, BED with 0/2/3 extra columns), judged by an independent line classifier: the Ok items must be, in order, a subsequence of the well-formed lines. 24 explicit malformed lines. Non-trivial: multi-valued or multi-key attributes; BED lists with quotes/empty fields/comments/several records; corruptions that change the classification of a line. Public API (units bedapi-*, gffapi-*, and extra assertions in the cases above): every BED/GFF record written is also compared with the record read back through the public getters (BED chrom/start/end/name/score/strand/aux(i); GFF seqname/source/feature_type/start/end/score/strand/phase). BED: a (name x score x strand x 0/1/6 further columns) grid incl. strands + - . empty and other text, each also converted to a Contig; set_name/set_score sequences of length 1-2 on records with 0..5 auxiliary columns against the documented column model and the push_aux route; From<Pos>/From<Contig>/From<Spliced> over positions, lengths, six strand values (ReqStrand, Strand, NoStrand) and every 1-3 exon structure over exon lengths {1,3,10} and intron lengths {1,5} plus the rustdoc example: record, record read back and Contig::from(&record) carry the coordinates/strand, BED12 columns as in the rustdoc/BED definition; Writer::to_file/Reader::from_file against Writer::new/Reader::new on the same records (private scratch directory), missing paths are errors. GFF: an 8 score x 4 strand x 4 phase grid with the other fixed columns cycling; GffType::from_str on the three names and six other strings; GffType::Any with the GFF3 triple and the GFF2/GTF2 triple (same round-trip checks, plus byte-identical output and identical parse as the built-in on the same record object and on a line with delimiter-joined values) and with the triple (: ! /); Phase::from for None and every u8, TryInto<u8>, TryInto<Option<u8>>, the phase through a written file; Phase deserialised from 14 texts and 5 non-text values, a serialised record without its phase field, three lines without a phase column; file constructors as for BED."
+        "BED: every record of a 5x3x8 grid per auxiliary column count k=0..4 as a single-record file, strided pairs and triples with a common k, four comment placements. GFF: three dialects x (score, strand, phase) grid x a family of attribute multimaps (empty, one pair, one key with 2-3 values, two keys interleaved); per record: writer conformance as a multiset of pairs, the reader on EVERY permutation of the written pairs (with and without trailing terminator), and end-to-end. every ordered pair and triple of five GFF records (with and without attributes) through one writer object. Corruptions: every truncation, every single-byte deletion, substitution and insertion from {TAB LF x 9 # . - 3} (thorough: also every PAIR of substitutions at two offsets) of six written files (3 GFF dialects, BED with 0/2/3 extra columns), judged by an independent line classifier: the Ok items must be, in order, a subsequence of the well-formed lines. 24 explicit malformed lines. Non-trivial: multi-valued or multi-key attributes; BED lists with quotes/empty fields/comments/several records; corruptions that change the classification of a line. Public API (units bedapi-*, gffapi-*, and extra assertions in the cases above): every BED/GFF record written is also compared with the record read back through the public getters (BED chrom/start/end/name/score/strand/aux(i); GFF seqname/source/feature_type/start/end/score/strand/phase). BED: a (name x score x strand x 0/1/6 further columns) grid incl. strands + - . empty and other text, each also converted to a Contig; set_name/set_score sequences of length 1-2 on records with 0..5 auxiliary columns against the documented column model and the push_aux route; From<Pos>/From<Contig>/From<Spliced> over positions, lengths, six strand values (ReqStrand, Strand, NoStrand) and every 1-3 exon structure over exon lengths {1,3,10} and intron lengths {1,5} plus the rustdoc example: record, record read back and Contig::from(&record) carry the coordinates/strand, BED12 columns as in the rustdoc/BED definition; Writer::to_file/Reader::from_file against Writer::new/Reader::new on the same records (private scratch directory), missing paths are errors. GFF: an 8 score x 4 strand x 4 phase grid with the other fixed columns cycling; GffType::from_str on the three names and six other strings; GffType::Any with the GFF3 triple and the GFF2/GTF2 triple (same round-trip checks, plus byte-identical output and identical parse as the built-in on the same record object and on a line with delimiter-joined values) and with the triple (: ! /); Phase::from for None and every u8, TryInto<u8>, TryInto<Option<u8>>, the phase through a written file; Phase deserialised from 14 texts and 5 non-text values, a serialised record without its phase field, three lines without a phase column; file constructors as for BED."
     }
     fn assumptions(&self) -> Vec<&'static str> {
         vec![
@@ -2100,7 +2142,7 @@ impl Prop for C13Prop {
         } else if unit < GFF_SHARDS + BED_SHARDS {
             bed_unit(tier, unit - GFF_SHARDS, ctx);
         } else if unit < old {
-            corruption_unit(unit - GFF_SHARDS - BED_SHARDS, ctx);
+            corruption_unit(tier, unit - GFF_SHARDS - BED_SHARDS, ctx);
         } else if unit < old + BEDAPI_SHARDS {
             bedapi_unit(unit - old, &format!("bedapi-{}", unit - old), ctx);
         } else if unit < old + BEDAPI_SHARDS + GFFAPI_SHARDS {
